@@ -1,12 +1,13 @@
-(* driver for C13:  W <state r|p|w|k> <ka> <rd> <wr>  -> the number of silent seconds after which the model's sweep releases the connection
+(* driver for C13:  W <state r|p|w|k|c> <ka> <rd> <wr>  -> the number of silent seconds after which the model's sweep releases the connection
                     (last progress at second 0; answer k means: still there after the sweep of second k-1, gone after the sweep of second k) *)
 let () = iter_lines (fun line ->
   match split_ws line with
   | ["W"; stt; ka; rd; wr] ->
-      let l = { keep_alive_idle = z_of_int (int_of_string ka); max_read_idle = z_of_int (int_of_string rd); max_write_idle = z_of_int (int_of_string wr); linger = z_of_int 5 } in
+      let l = { keep_alive_idle = z_of_int (int_of_string ka); max_read_idle = z_of_int (int_of_string rd); max_write_idle = z_of_int (int_of_string wr); linger = hTTP_LINGER_TIMEOUT } in
       let c = match stt with
         | "k" -> { st = StRead; request_count = z_of_int 2; wait_in = true; read_idle_ts = Z0; write_request_ts = Z0; close_timeout_ts = Z0 }
         | "r" -> { st = StRead; request_count = z_of_int 1; wait_in = true; read_idle_ts = Z0; write_request_ts = Z0; close_timeout_ts = Z0 }
+        | "c" -> { st = StClose; request_count = z_of_int 1; wait_in = true; read_idle_ts = Z0; write_request_ts = Z0; close_timeout_ts = Z0 }
         | "p" -> { st = StReadPost; request_count = z_of_int 1; wait_in = true; read_idle_ts = Z0; write_request_ts = Z0; close_timeout_ts = Z0 }
         | _ -> { st = StWrite; request_count = z_of_int 1; wait_in = false; read_idle_ts = Z0; write_request_ts = z_of_int 1; close_timeout_ts = Z0 } in
       let rec go c k = if k > 100 then k else
